@@ -4,9 +4,14 @@
    (sort.go), the LIMIT/OFFSET window, BuildUnion, BuildCte, derived tables, row-scoped
    subqueries and EXISTS — including what a subquery finds behind the back reference `<-`: the data
    map of the enclosing query, which still holds that query's CTE thunks ([c_up], [up_find]).
+   A table name that is a selector ([FSel]: brackets, keep=>, each, ranges, pipes, `::`, fn=>) is resolved
+   as BuildFromAliasedTable does it, by ExecReader on the text — the C09 model Model/SelReader.v.
    Definitions only. *)
 From Coq Require Import Floats.
 From GenqlV Require Import Base.Prelude Base.Fmt Base.Value Model.Ast Model.Like Model.Num Model.Eval.
+(* the selector model of C09 (ParseSelector / ExecReader): used, with qualified names, for a FROM whose
+   table name is a selector *)
+From GenqlV Require Model.SelToken Model.SelReader Spec.SelectorSpec.
 Local Open Scope Z_scope.
 Local Open Scope list_scope.
 
@@ -216,10 +221,49 @@ Fixpoint group_insert (key : list (string * value)) (item : value) (gs : list gr
       else let! rest' := group_insert key item rest in Ok ((k, ms) :: rest')
   end.
 
-Definition group_key (cols : list string) (item : value) : res (list (string * value)) :=
-  mapM (fun c => let! v := reader [c] item in Ok (c, v)) cols.
+(* ExecReader(item, keyText) on the steps the key text parses to — selector.go Reader, the KeySelector case (as
+   [reader] of Model/Eval.v: NULL stays NULL, a missing key reads NULL, a slice is rebuilt element by element, a
+   scalar is an error) and the []*IndexSelector case with ONE dimension (SelectMany: NULL stays NULL; anything but a
+   slice is an error; `[each]` = -1 keeps the slice; an index outside 0 <= i < len is an error — the repaired
+   SelectDimension checks it before indexing; Unwind at depth 0 is the identity).
+   Proofs/C03PathReader.v proves that this is Model/SelReader.reader (the selector model of C09) on those tokens. *)
+Fixpoint key_reader (p : list kstep) : value -> res value :=
+  match p with
+  | [] => fun v => Ok v
+  | KKey k :: rest =>
+      fix go (v : value) : res value :=
+        match v with
+        | VNull => Ok VNull
+        | VObj kvs => key_reader rest (obj_get k kvs)
+        | VArr l =>
+            let! l' := (fix each (l : list value) : res (list value) :=
+                          match l with
+                          | [] => Ok []
+                          | x :: r => let! y := go x in let! ys := each r in Ok (y :: ys)
+                          end) l in
+            Ok (VArr l')
+        | _ => Err      (* key selectors are not valid on scalars *)
+        end
+  | KIdx i :: rest =>
+      fun v =>
+        match v with
+        | VNull => Ok VNull
+        | VArr l =>
+            if i =? -1 then key_reader rest (VArr l)
+            else if (i <? 0) || (Z.of_nat (List.length l) <=? i) then Err     (* index out of range *)
+            else match nth_error l (Z.to_nat i) with
+                 | Some x => key_reader rest x
+                 | None => Panic                                                 (* unreachable *)
+                 end
+        | _ => Err      (* index selectors are not valid on maps / scalars *)
+        end
+  end.
 
-Fixpoint group_rows (cols : list string) (items : list value) (gs : list group) : res (list group) :=
+(* innerMap[key] = ExecReader(item, key) for every grouping column *)
+Definition group_key (cols : list gkey) (item : value) : res (list (string * value)) :=
+  mapM (fun c => let! v := key_reader (gk_path c) item in Ok (gk_name c, v)) cols.
+
+Fixpoint group_rows (cols : list gkey) (items : list value) (gs : list group) : res (list group) :=
   match items with
   | [] => Ok gs
   | it :: rest =>
@@ -282,6 +326,24 @@ Definition top_level_fn (fn : string) (v : value) : res value :=
   else if String.eqb fn "distinct" then OutOfModel
   else Err.
 
+(* ------------------------------------------------------------------ *)
+(* a table name that is a selector                                      *)
+(* ------------------------------------------------------------------ *)
+
+(* the keys of query.data the FIRST step of a parsed selector reads (the steps that follow work on what that
+   step returned: document data).  [None]: the first step is not a key or a pipe — the selector is empty, or
+   starts with a bracket, or is a bare `fn=>` — and whatever happens next happens to the data map as a whole *)
+Definition sel_head (all : list (list SelToken.token)) : option (list string) :=
+  match all with
+  | [] => None
+  | first :: _ =>
+      match (match first with SelToken.TFn _ :: r => r | _ => first end) with
+      | SelToken.TKey k :: _ => Some [k]
+      | SelToken.TPipe ps :: _ => Some (map SelToken.pkey ps)
+      | _ => None
+      end
+  end.
+
 (* a unit of work for the fuelled interpreter: a statement, or a prepared SELECT whose source rows
    have already been resolved (EXISTS rewrites them before running) *)
 Inductive job :=
@@ -307,6 +369,7 @@ Section Run.
     match f with
     | FTable p a => if String.eqb a "" then hd ""%string p else a
     | FTableFn _ p a => if String.eqb a "" then hd ""%string p else a
+    | FSel sl a => if String.eqb a "" then sel_ident sl else a
     | FDerived _ a => a
     | _ => ""%string
     end.
@@ -333,6 +396,25 @@ Section Run.
     match path with
     | k :: rest => if String.eqb k "<-" then up_find (c_up ctx) rest else None
     | [] => None
+    end.
+
+  (* query.data is the document (or the scope copy of a row) in which BuildCte has overwritten the CTE names
+     with thunks, and whose `<-` key is the data map of the enclosing query, thunks included.  [value] has no
+     thunks: the model's [c_data] agrees with query.data on every key that is neither a registered CTE name nor
+     `<-`.  A selector is [sel_visible] when its text parses and its first step reads such keys only; then
+     ExecReader never meets a thunk and the C09 reader model on [c_data] is what the code computes.  A text that
+     does not parse is an error whatever the data hold.  The text `dual` is the pseudo table. *)
+  Definition sel_visible (ctes : list (string * stmt)) (text : string) : bool :=
+    negb (String.eqb text "dual") &&
+    match SelToken.parse_all text with
+    | Ok all =>
+        match sel_head all with
+        | Some names =>
+            forallb (fun k => negb (String.eqb k "<-") &&
+                              match cte_lookup k ctes with None => true | Some _ => false end) names
+        | None => false
+        end
+    | _ => true
     end.
 
   (* BuildFrom / BuildFromAliasedTable / BuildJoin: the source rows; [None] = dual *)
@@ -388,6 +470,16 @@ Section Run.
             | _ => let! arr := as_array w in Ok (Some (process_alias arr alias))
             end
         end
+    | FSel sl alias =>
+        (* ExecReader(query.data, tableName) with the whole selector language: the C09 model *)
+        let text := SelectorSpec.print_sel sl in
+        if sel_visible (c_ctes ctx) text then
+          let! v := SelReader.exec_reader (VObj (c_data ctx)) text in
+          match v with
+          | VNull => Ok (Some [])            (* nothing there: empty source *)
+          | _ => let! arr := as_array v in Ok (Some (process_alias arr alias))
+          end
+        else OutOfModel
     | FDerived q alias =>
         let! v := rec ctx (JStmt q) in
         let! arr := as_array v in
